@@ -940,12 +940,16 @@ impl NameResolution {
             } => {
                 let new_value = self.resolve_expr(value, env, ctx, hir_table);
                 let new_pat = self.resolve_pat(pat, env, ctx, hir_table);
+                // like every other type position, the annotation may only name imported packages
+                let annotation = annotation.as_ref().map(|t| {
+                    self.lower_type_expr(t, &HashSet::new(), ctx.current_package, ctx.imports)
+                });
                 self.alloc_expr_with_ptr(
                     hir_table,
                     *astptr,
                     hir::Expr::ELet {
                         pat: new_pat,
-                        annotation: annotation.as_ref().map(|t| t.into()),
+                        annotation,
                         value: new_value,
                     },
                 )
